@@ -33,7 +33,8 @@ Theorem C04_behaviour_flag_iff_error_logged : forall fuel r c fr r' c', frame_ne
 Proof. exact behaviour_flag_iff_error_logged. Qed.
 Print Assumptions C04_behaviour_flag_iff_error_logged.
 
-(* ---- one pass of execute_do's loop is exactly one of the nine cases of `pass` (C04Defs.v) *)
+(* ---- one pass of execute_do's loop is exactly one of the eleven cases of `pass` (C04Defs.v; two of them are the round of a
+   restarted scope without instructions: deadline test, nothing executed) *)
 Theorem C04_do_iter_iff_pass : forall r it, do_iter r = Ok it <-> pass r it.
 Proof. exact do_iter_iff_pass. Qed.
 Print Assumptions C04_do_iter_iff_pass.
@@ -263,3 +264,32 @@ Example ex_history : hist_trace fresh ex_hist [] = ["2:3:3:60019,M<1>,1:60068,0:
 Proof. vm_compute. reflexivity. Qed.
 Example ex_history_ok : exists os r', hist fresh ex_hist = Ok (os, r') /\ length os = 2.
 Proof. eexists. eexists. split; [vm_compute; reflexivity|reflexivity]. Qed.
+
+(* {} forEach [1,2,3] : the exit behaviour restarts a scope that has no instructions - frame.next() reports
+   `restarted`, the pass executes nothing (cases PRestarted / PRestartExpired of `pass`) *)
+Definition spin : stmt := SExpr (EBinary "foreach" (ECode []) (EArr [ENum 1; ENum 2; ENum 3])).
+Definition ex_rr : rt := entry_state (steps 6 (load fresh (P [spin]))).
+Example ex_restarted_round : exists r1 c1 r2, pass ex_rr (Executed (upd_cur r2 c1)) /\
+  frame_next frame_fuel ex_rr (ctx_of ex_rr) = Ok (FRestarted, r1, c1) /\ deadline_test r1 = (false, r2).
+Proof.
+  eexists. eexists. eexists. split; [|split].
+  - eapply (PRestarted ex_rr (ctx_of ex_rr)); [vm_compute; repeat split; discriminate|vmsolve|vmsolve|vmsolve].
+  - vmsolve.
+  - vmsolve.
+Qed.
+Example ex_restarted_run : run_final (load fresh (P [spin])) = "-1:0:3:60095,M<VALUE nil>,".
+Proof. vm_compute. reflexivity. Qed.
+(* the same with a time limit of 6 ticks: the limit is reached in the restarted round, the run fails with
+   the time-limit diagnostic *)
+Definition limited : rt := create_rt [] 6 1 10000 150.
+Definition ex_rx : rt := entry_state (steps 6 (load limited (P [spin]))).
+Example ex_restarted_round_expired : exists r1 c1 r2, pass ex_rx (Return RRuntimeError (expired_machine r2 c1)) /\
+  frame_next frame_fuel ex_rx (ctx_of ex_rx) = Ok (FRestarted, r1, c1) /\ deadline_test r1 = (true, r2).
+Proof.
+  eexists. eexists. eexists. split; [|split].
+  - eapply (PRestartExpired ex_rx (ctx_of ex_rx)); [vm_compute; repeat split; discriminate|vmsolve|vmsolve|vmsolve].
+  - vmsolve.
+  - vmsolve.
+Qed.
+Example ex_restarted_expired_run : run_final (load limited (P [spin])) = "2:0:0:60002,".
+Proof. vm_compute. reflexivity. Qed.
